@@ -276,6 +276,10 @@ int main(int argc, char **argv) {
     NEV = sigma_build(EV, 1024, mode == 3 ? SIGMA_DISC : small ? SIGMA_SMALL : SIGMA_P);
     NCV = sigma_build(CV, 1024, small ? SIGMA_SMALL : SIGMA_P);
     if (mode == 9 && A.b != 1) { EV[NEV++] = ev_raw(0xEF, 0xF0, ST_ZERO, ST_ZERO); CV[NCV++] = ev_raw(0xEF, 0xF0, ST_ZERO, ST_ZERO); }      /* the interface's MTU may be changed at run time */
+    if (mode == 9 && A.b == 1) {      /* the two-interface product keeps the alphabet without the unsequenced Emit / Query (they are in the one-interface runs): with them it no longer closes within the memory budget on trees that add per-interface state */
+        int n = 0; for (int i = 0; i < NEV; i++) if (!(EV[i].seq == 0 && (EV[i].opcode == 0x02 || EV[i].opcode == 0x06))) EV[n++] = EV[i]; NEV = n;
+        n = 0; for (int i = 0; i < NCV; i++) if (!(CV[i].seq == 0 && (CV[i].opcode == 0x02 || CV[i].opcode == 0x06))) CV[n++] = CV[i]; NCV = n;
+    }
     if (mode == 9 && A.b == 1) {      /* a responder with two interfaces: a frame that changes nothing (a neighbour's Hello) may arrive on the other one at any point */
         SIB_EV = NEV; EV[NEV++] = ev_hello(0, ST_PEER, 0x3412); SIB_CV = NCV; CV[NCV++] = ev_hello(0, ST_PEER, 0x3412);
     }
